@@ -142,6 +142,9 @@ def run_surviving(binary, family, inp, timeout=3600, max_crashes=12, **kw):
         CRASHED.clear()
 
 
+RSS_LIMIT_KB = 6 * 1024 * 1024
+
+
 def run_harness(binary, family, inp, shards=None, seed_=None, timeout=3600, extra=None, env_extra=None, tolerate_crash=False):
     """runs the harness family over `shards` processes; returns the list of ndjson records"""
     sc = scratch()
@@ -163,14 +166,34 @@ def run_harness(binary, family, inp, shards=None, seed_=None, timeout=3600, extr
         lf = open(outp + ".log", "w")
         procs.append((subprocess.Popen(cmd, cwd=sc, stdout=lf, stderr=subprocess.STDOUT, env=env), outp, lf))
     recs = []
+    t_start = time.time()
     deadline = time.time() + timeout + 30
-    for p, outp, lf in procs:
+    # watchdog: a harness process that grows beyond RSS_LIMIT is killed (a runaway in the code under test must not take the
+    # machine down); it then counts as a crashed shard
+    def rss_kb(pid):
         try:
-            rc = p.wait(timeout=max(1, deadline - time.time()))
-        except subprocess.TimeoutExpired:
+            for line in open("/proc/%d/status" % pid):
+                if line.startswith("VmRSS:"):
+                    return int(line.split()[1])
+        except OSError:
+            pass
+        return 0
+    oom = set()
+    while any(p.poll() is None for p, _, _ in procs):
+        if time.time() > deadline:
             for q, _, _ in procs:
                 q.kill()
             raise Inconclusive("harness timed out (family %s)" % family)
+        for p, outp, _ in procs:
+            if p.poll() is None and rss_kb(p.pid) > RSS_LIMIT_KB:
+                p.kill()
+                oom.add(outp)
+        time.sleep(0.5)
+    for p, outp, lf in procs:
+        rc = p.wait()
+        if outp in oom:
+            with open(outp + ".log", "a") as fh:
+                fh.write("\nfatal error: verif watchdog: the harness process grew beyond %d MB and was killed\n" % (RSS_LIMIT_KB // 1024))
         lf.close()
         if rc != 0 and not tolerate_crash:
             tail = open(outp + ".log").read()[-3000:]
@@ -186,6 +209,7 @@ def run_harness(binary, family, inp, shards=None, seed_=None, timeout=3600, extr
                 line = line.strip()
                 if line:
                     recs.append(json.loads(line))
+    log("harness %s: %d shard(s), %d record(s), %.1fs" % (family, shards, len(recs), time.time() - t_start))
     aborted = [r for r in recs if "abort" in r]
     recs = [r for r in recs if "abort" not in r]
     if aborted:
